@@ -464,6 +464,13 @@ b
 c
 ''')
 
+E('tc_min', 'trail e1', r'''
+%%
+a/b
+a
+b
+''')
+
 E('tc_fixed_head', 'trail e1', r'''
 %%
 ab/c+
